@@ -43,6 +43,9 @@ type Uni struct {
 	Member []bool    `json:"member"`
 	Act    []int     `json:"act"`
 	Gen    []int     `json:"gen"` // key generations each set may go through (0: never starts)
+	Http   bool      `json:"http"` // config file: HTTPEnabled
+	Ro     string    `json:"ro"`   // config file: HTTPReadOnly key "absent" | "true" | "false"
+	Wd     bool      `json:"wd"`   // observed: write operations enabled with HTTPEnabled and no HTTPReadOnly key
 	Ids    []IdSpec  `json:"ids"`
 	Trg    []TrgSpec `json:"trg"`
 }
@@ -65,6 +68,8 @@ func (o Op) String() string {
 		return fmt.Sprintf("release%v", o.Ids)
 	case "restart":
 		return "restart"
+	case "manual":
+		return fmt.Sprintf("POST-decryptionTrigger(identity %d)", o.A)
 	}
 	return fmt.Sprintf("%s(%d)", o.K, o.A)
 }
